@@ -35,6 +35,10 @@ type ServerCfg struct {
 	HasParams   bool              `json:"hasparams,omitempty"` // configure GlobalParameters even when empty
 	Version     string            `json:"version,omitempty"`
 	TLS         string            `json:"tls,omitempty"` // "" | empty | certs
+	// AuthFirst: an earlier SessionAuthStrategy option ("accept-all": a strategy
+	// that lets everybody in) which the option configured by Auth follows and
+	// - last option wins - replaces
+	AuthFirst string `json:"auth_first,omitempty"`
 	// UserCaches: statement and portal caches are supplied through the
 	// Statements / Portals options (user types embedding the default caches)
 	UserCaches bool `json:"user_caches,omitempty"`
@@ -160,6 +164,8 @@ type SchedCase struct {
 	// CloseFirst: one Close call runs to completion before Serve is called at
 	// all (`go srv.Serve(l)` overtaken by an early Close)
 	CloseFirst bool `json:"close_first,omitempty"`
+	// Listeners > 1: Serve is called once per listener on the same Server
+	Listeners int `json:"listeners,omitempty"`
 }
 
 // Hold parks Task at Point until Until has passed UntilPoint (or cannot run).
